@@ -23,7 +23,7 @@ RULE = ('cases = (aperture-dependent package in format 1 or 2 with 2..8 aperture
         'distance range, log-distance step, A_V range, 4 sources over all flags) drawn from the quantifier of C02; a '
         'case is non-trivial when the grid has >= 2 trial distances or some theta*d lies beyond the largest aperture; '
         'distinct = distinct canonical hash of the generated inputs')
-REQUIRED_BRANCHES = ['exact_multiple', 'format1', 'format2', 'dmin_eq_dmax', 'multi_distance', 'beyond_largest', 'inside_table',
+REQUIRED_BRANCHES = ['range_other_unit', 'exact_multiple', 'format1', 'format2', 'dmin_eq_dmax', 'multi_distance', 'beyond_largest', 'inside_table',
                      'flux_monotone', 'flux_arbitrary', 'clamp_low', 'clamp_high', 'interior', 'lo_eq_hi',
                      'best_first', 'best_last', 'best_inner', 'limit_violated', 'limit_ok', 'flag4', 'flag0or9',
                      'theta_dmin_on_knot']
@@ -33,7 +33,7 @@ ASSUMPTIONS = ['IEEE rounding is not modelled: av / chi2 are compared with a 1e-
                'distances, A_V clamp, limit side, theta*dmin against the smallest aperture) are counted as margin_relaxed '
                'and not compared',
                'tables are increasing in aperture; theta*dmin is never below the smallest aperture (the quantifier)']
-N = {'quick': 40, 'thorough': 600}
+N = {'quick': 120, 'thorough': 2000}
 FLAGS = [0, 1, 2, 3, 4, 9]
 MARGIN = 1e-7
 
@@ -83,6 +83,19 @@ def gen_case(rng, directed=None):
         step = rng.choice([0.25, 0.5, 0.125, 0.0625])
         dmin = rng.choice([1., 10., 0.1])
         dmax = dmin * rng.choice([10., 100.])
+    # the range may be given in any length unit; the model works with the kpc floats the code derives from it
+    dunit = 'kpc' if (exact or rng.random() < 0.5) else rng.choice(['pc', 'Mpc', 'cm', 'lyr', 'm'])
+    if dunit != 'kpc':
+        from astropy import units as _u
+        fac = (1. * _u.kpc).to(_u.Unit(dunit)).value
+        du = [float('%.4g' % (dmin * fac)), float('%.4g' % (dmax * fac))]
+        if rkind == 'single':
+            du[1] = du[0]
+        dmin, dmax = pk.to_kpc(du, dunit)
+        if dmax < dmin or (rkind != 'single' and dmax == dmin):
+            dunit, du = 'kpc', None
+    if dunit == 'kpc':
+        du = [dmin, dmax]
     thetas = [nice(rng, 0.5, 30., 2) for _ in range(nb)]
     # aperture tables: smallest aperture <= theta*dmin (in AU); largest relative to theta*dmax
     def table(theta_lo, theta_hi):
@@ -170,7 +183,8 @@ def gen_case(rng, directed=None):
                 er.append(float('%.3g' % (f * nice(rng, 1e-3, 0.5, 2))))
         sources.append(dict(flags=flags, flux=fl, err=er))
     return dict(fmt=fmt, rkind=rkind, akind=akind, wavs=wavs, tab_w=tw, tab_chi=chi, thetas=thetas, aps=aps,
-                flux=flux, mono=mono, dmin=dmin, dmax=dmax, step=step, av=av, sources=sources)
+                flux=flux, mono=mono, dmin=dmin, dmax=dmax, dunit=dunit, drange_in_unit=du, step=step, av=av,
+                sources=sources)
 
 
 DIRECTED = [(1, 'inside', 'interior'), (2, 'beyond', 'clamp_low'), (1, 'beyond', 'clamp_high'), (2, 'single', 'lo_eq_hi'),
@@ -271,7 +285,8 @@ def run_case(case):
         on_knot = exp['error'] is None and abs(exp['below_m']) < MARGIN or exp['error'] == 'tooSmall' and case['rkind'] == 'on_knot'
         try:
             fitter = pk.make_fitter(d, fnames, case['thetas'], ext, case['av'],
-                                    distance_range_kpc=(case['dmin'], case['dmax']), use_memmap=False)
+                                    distance_range_kpc=case.get('drange_in_unit') or (case['dmin'], case['dmax']),
+                                    distance_unit=case.get('dunit', 'kpc'), use_memmap=False)
         except Exception as e:      # noqa: BLE001
             if on_knot and 'too small' in str(e):
                 # theta*dmin sits on the smallest aperture: 10**log10(dmin) may round below it
@@ -300,6 +315,8 @@ def run_case(case):
                 return CaseResult(True, branches=branches, key=common.canon_hash(case), nontrivial=True, relaxed=1)
         nd_impl = len(fitter.models.distances) if fitter.models.distances is not None else None
         nd = exp['nd']
+        if case.get('dunit', 'kpc') != 'kpc':
+            branches.add('range_other_unit')
         if case['dmin'] == case['dmax']:
             branches.add('dmin_eq_dmax')
         else:
@@ -380,7 +397,8 @@ def direct_check(case):
         fnames, ext, names = build(case, d)
         try:
             fitter = pk.make_fitter(d, fnames, case['thetas'], ext, case['av'],
-                                    distance_range_kpc=(case['dmin'], case['dmax']), use_memmap=False)
+                                    distance_range_kpc=case.get('drange_in_unit') or (case['dmin'], case['dmax']),
+                                    distance_unit=case.get('dunit', 'kpc'), use_memmap=False)
         except Exception as e:      # noqa: BLE001
             if case['rkind'] == 'on_knot':
                 return None
